@@ -187,8 +187,21 @@ impl InferShapes for Reshape {
                         } else {
                             return Err(InferShapesError::InvalidValue);
                         }
-                    } else {
+                    } else if matches!(size, SymExpr::Value(_)) {
                         size.clone()
+                    } else {
+                        // A symbolic size is taken literally only if it cannot
+                        // have one of the special values (-1, or 0 when
+                        // `allow_zero` is false) at runtime. A size that may
+                        // be zero is also fine if it equals the input
+                        // dimension that a zero would copy.
+                        let (min, _max) = size.range();
+                        let same_as_input = data.size(i).as_ref() == Some(size);
+                        if min >= 1 || (min >= 0 && (self.allow_zero || same_as_input)) {
+                            size.clone()
+                        } else {
+                            sym_gen.gen_positive()
+                        }
                     };
 
                     if size == SymExpr::Value(-1) {
